@@ -98,6 +98,57 @@ def read(path):
         return f.read()
 
 
+def ibrun_chain(rp, nalloc, agent_nodes, service, tpn, sbox):
+    """the nodes the real Slurm resource manager offers out of an allocation of `nalloc` nodes when the agent layout
+    reserves some of them (sub-agents on nodes of their own, a services node), handed to the real IBRun: for a one-rank
+    task on each offered node, the `-o` offset - into ibrun's processor list, which covers the WHOLE allocation in its
+    own order - has to address that node.  Returns [(node index in the allocation, offset of the command)]."""
+    from props import c18
+    hosts = [0, 1, 2, 5, 6, 7][:nalloc]               # c18.HOSTS ids of plain compute hosts, in allocation order
+    case = {'op': 'init', 'kind': 'slurm', 'exec_vnode': None, 'stale': None,
+            'cfg': {'cpn': 8, 'gpn': 0, 'smt': 1, 'nodes': nalloc, 'cores': 8, 'gpus': 0, 'backup': 0, 'blocked_cores': [],
+                    'blocked_gpus': [], 'agent_nodes': agent_nodes, 'service_nodes': service, 'env_gpus': None, 'env_gpu_ids': 0},
+            'lines': [{'id': h, 'login': False, 'batch': False} for h in hosts],
+            'hosts': [{'id': h, 'login': False, 'batch': False} for h in hosts],
+            'env_cpus': None, 'detected': 64, 'reach': list(range(len(c18.HOSTS))), 'hang': []}
+    rm, shared, err = c18.run_real(rp, case, sbox)
+    if rm == 'error':
+        return 'rm-error: %s' % err
+    offered = [n[1] for n in rm['node_list']]           # node indices, in the order of rm_info.node_list
+    cfg = {'cpn': 8, 'node_idx': offered, 'tpn': tpn}
+    o = make_lm(rp, 'IBRUN', cfg, sbox)
+    out = []
+    for k, idx in enumerate(offered):
+        t = {'ranks': 1, 'cpr': 1, 'gpus': False, 'use_mpi': True, 'exe': True,
+             'slots': [{'host': idx, 'node': idx, 'cores': [0], 'gpus': []}]}
+        c = parse('IBRUN', o.get_launch_cmds(make_task(rp, t, 'task.%06d' % k, sbox), 'EXEC'), cfg)
+        out.append((idx, c['offset'], c['tpn']))
+    return out
+
+
+def ibrun_chain_part(ctx, rp, sbox):
+    n = 0
+    for nalloc in (2, 3, 5):
+        for agent_nodes in (0, 1, 2):
+            for service in (0, 1):
+                if agent_nodes + service >= nalloc: continue
+                for tpn in (0, 4):
+                    r = ibrun_chain(rp, nalloc, agent_nodes, service, tpn, sbox)
+                    n += 1
+                    ctx.case({'ibrun_chain': [nalloc, agent_nodes, service, tpn]}, nontrivial=bool(agent_nodes or service))
+                    inp = {'ibrun_chain': {'nalloc': nalloc, 'agent_nodes': agent_nodes, 'service': service, 'tpn': tpn}}
+                    if isinstance(r, str):
+                        ctx.fail('ibrun-chain:resource-manager-raises', r, inp); continue
+                    for idx, off, t in r:
+                        if off != idx * t:
+                            ctx.fail('ibrun-chain:offset-addresses-another-node-of-the-allocation',
+                                     'allocation of %d nodes, %d reserved for sub-agents, %d for services: a task on node %d of the allocation '
+                                     'is started with -o %d (tasks per node %d), i.e. on node %d' % (nalloc, agent_nodes, service, idx, off, t, off // t), inp)
+                            break
+    ctx.obligation('nodes offered by the real Slurm resource manager with nodes reserved for sub-agents / services -> real IBRun: the offset '
+                   'addresses the task\'s node in the allocation (%d layouts)' % n, 'tie', True, '')
+
+
 def parse(lm, cmd, cfg):
     """real command string (+ the files it names) -> the structure of Model/Launch.lean `Cmd`"""
     w = cmd.split()
@@ -628,6 +679,7 @@ def run(ctx):
     ctx.extra['distribution'] = dist
     ctx.sample({'op': ops[1], 'real': impl[1]}, limit=1)
     common.compare(ctx, 'launch', ops, impl, what='real launch methods: can_launch and parsed get_launch_cmds (+ host/rank/node files) per task')
+    ibrun_chain_part(ctx, rp, sbox)
     common.compare(ctx, 'launch', jops, jimpl, what='real JSRUN (resource set flags and explicit resource file) per task')
     common.compare(ctx, 'launch', fops, fimpl, what='ResourceManager.find_launcher over real launchers')
     ctx.rule = ('per launch method and flavour (MPT/dplace/ccmrun/Spectrum; rank file/host file/PALS; Slurm versions, traverse; '
@@ -644,6 +696,15 @@ def run(ctx):
 def replay(ctx, data):
     rp = rpload.load()
     i  = data['input']
+    if 'ibrun_chain' in i:
+        c = i['ibrun_chain']
+        sbox = tempfile.mkdtemp(prefix='c09_')
+        try:
+            r = ibrun_chain(rp, c['nalloc'], c['agent_nodes'], c['service'], c['tpn'], sbox)
+        finally:
+            shutil.rmtree(sbox, ignore_errors=True)
+        print(r)
+        return not isinstance(r, str) and all(off == idx * t for idx, off, t in r)
     if i.get('lm') == 'find':
         if 'tasks' not in i: return False
         from radical.pilot.agent.resource_manager.base import ResourceManager
